@@ -42,6 +42,7 @@ type RepProc struct {
 	Dir          string
 	Log          string
 	PortBase     int
+	portLock     string
 	Extra        []string
 	Env          []string
 	Wrap         []string // command prefix the replica is started under
@@ -138,8 +139,43 @@ func (cl *Cluster) newRep(i, a, b int) *RepProc {
 	// below the kernel's ephemeral range (32768-60999): a receiver cannot bind a port that an outgoing connection of any
 	// process on the machine happens to use as its local port, and the transfer then fails after the sender's 7 s of
 	// retries (seen as rebuilds that needed many attempts when several clusters ran side by side)
-	p.PortBase = 12000 + ((os.Getpid()*37+a*101+b*13+i*7)%1000)*20
+	p.PortBase, p.portLock = claimPortRange((os.Getpid()*37 + a*101 + b*13 + i*7) % 1000)
 	return p
+}
+
+// claimPortRange reserves a range of 20 ports for one sync agent, machine-wide. The ssync receivers an agent starts
+// listen on *all* interfaces (":port"), and the replicas of every cluster of every check that runs at the same time
+// share one network namespace here (in a deployment each pod has its own): two agents with overlapping ranges make
+// a sender of one cluster deliver its file to a receiver of another - a metadata file then names a snapshot of the
+// other volume and the replica cannot open its chain any more (seen once as a "restart loop" on the unchanged tree,
+// before ranges were exclusive). A range is held by a lock file created with O_EXCL that names the holder's pid;
+// locks of dead processes are taken over.
+func claimPortRange(start int) (int, string) {
+	dir := filepath.Join(os.TempDir(), "jvv-portlocks")
+	os.MkdirAll(dir, 0777)
+	for k := 0; k < 1000; k++ {
+		slot := (start + k) % 1000
+		lock := filepath.Join(dir, fmt.Sprintf("slot-%d", slot))
+		for try := 0; try < 2; try++ {
+			f, err := os.OpenFile(lock, os.O_CREATE|os.O_EXCL|os.O_WRONLY, 0666)
+			if err == nil {
+				fmt.Fprintf(f, "%d", os.Getpid())
+				f.Close()
+				return 12000 + slot*20, lock
+			}
+			b, _ := os.ReadFile(lock)
+			pid := 0
+			fmt.Sscanf(string(b), "%d", &pid)
+			if pid > 0 && syscall.Kill(pid, 0) == nil {
+				break // held by a live process
+			}
+			if st, e := os.Stat(lock); e == nil && time.Since(st.ModTime()) < 2*time.Second && pid == 0 {
+				break // just created, pid not written yet
+			}
+			os.Remove(lock) // holder is gone
+		}
+	}
+	return 12000 + start*20, "" // nothing free (1000 ranges in use): fall back to the unshared scheme
 }
 
 // StartRep launches the replica and its sync agent (the supervisor's restart).
@@ -217,6 +253,13 @@ func (cl *Cluster) Kill(p *RepProc, agentToo bool) {
 
 // Stop tears everything down.
 func (cl *Cluster) Stop() {
+	defer func() {
+		for _, p := range cl.Reps {
+			if p.portLock != "" {
+				os.Remove(p.portLock)
+			}
+		}
+	}()
 	for _, p := range cl.Reps {
 		if p.cmd != nil && p.cmd.Process != nil {
 			syscall.Kill(-p.cmd.Process.Pid, syscall.SIGKILL)
